@@ -552,6 +552,7 @@ type c17Segment struct {
 	Program  string
 	Pre      []c17Op            // external steps applied before the script runs
 	Seeds    map[string]string  // seed files (name -> content) that must exist before the script runs
+	Modules  map[string]string  // source files next to main.tsh that the program imports (path relative to it -> content)
 	Expect   []c17Expect        // observations expected from the script, in order
 	After    *c17Model          // model state after the script
 	OpIdx    []int              // indices of the ops rendered in this segment
@@ -604,6 +605,7 @@ func (h *c17Hist) render(seed uint64) []*c17Segment {
 	theme := themes[rng.Intn(len(themes))]
 	nameMap := map[string]string{}
 	usesShared := false
+	viaImport := rng.Chance(30) // the shared functions of this history come from an imported module
 	const sharedDefs = "func shw(shp string, shs string, sha bool) {\nwrite(shp, shs, sha)\n}\nfunc shw2(shp string, shs string) {\nwrite(shp, shs)\n}\nfunc shr(shp string) string {\nshx := read(shp)\nreturn shx\n}\nfunc she(shp string) bool {\nreturn exists(shp)\n}\n"
 	// 40 % of the histories define every self-contained function at the very top of the program
 	// and call it where the operation happens: definition order is not execution order
@@ -633,7 +635,17 @@ func (h *c17Hist) render(seed uint64) []*c17Segment {
 		if advNames {
 			cur.Program = renameIdentifiers(cur.Program, nameMap, theme, rng)
 		}
-		if usesShared {
+		if usesShared && viaImport {
+			// the shared functions live in an imported module; a SECOND module with the same base name
+			// in another directory, the same function names and other behaviour is imported first
+			p := cur.Program
+			for _, r := range [][2]string{{"shw2(", "sa.Shw2("}, {"shw(", "sa.Shw("}, {"shr(", "sa.Shr("}, {"she(", "sa.She("}} {
+				p = strings.ReplaceAll(p, r[0], r[1])
+			}
+			cur.Program = "import (\n\tsb \"mods/b/store.tsh\"\n\tsa \"mods/a/store.tsh\"\n)\n" + p
+			cur.Modules = map[string]string{"mods/a/store.tsh": sharedModule(""), "mods/b/store.tsh": sharedModule(" + \".b\"")}
+			usesShared = false
+		} else if usesShared {
 			// one set of functions used by many operations of this script
 			cur.Program = sharedDefs + cur.Program
 			usesShared = false
@@ -1259,6 +1271,9 @@ func c17RunX(r *Run, h *c17Hist, seed uint64, st *c17Stats, harvest *[]string) (
 	for i, s := range segs {
 		cases[i] = simrt.Case{World: simrt.WorldSpec{Files: []simrt.FileSpec{{Path: "/sim/m/main.tsh", Data: []byte(s.Program)}, {Path: "/sim/x/tsh", Data: []byte("ELF")}}, Cwd: "/sim/m", Exe: "/sim/x/tsh"},
 			Path: "/sim/m/main.tsh", Target: "bash", ReturnScript: true}
+		for _, rel := range sortedKeys(s.Modules) {
+			cases[i].World.Files = append(cases[i].World.Files, simrt.FileSpec{Path: "/sim/m/" + rel, Data: []byte(s.Modules[rel])})
+		}
 		// every third history: the transpiler object has just emitted the same program for the
 		// other target (tsh -i x.tsh -t batch -t bash, the README's first command)
 		if seed%3 == 0 {
@@ -1536,6 +1551,13 @@ func checkC17(r *Run) error {
 		"print with a non-dash marker prefix reproduces a variable's value faithfully (echo without -e)",
 		"a failing extended-population history is attributed to a known finding only through the counterfactual: it must pass once exactly the listed features are neutralised",
 	}, "exploration")
+}
+
+// sharedModule is the source of a module that offers the shared line-store functions; sfx is
+// appended to every path (the twin module works on other files).
+func sharedModule(sfx string) string {
+	return "func Shw(shp string, shs string, sha bool) {\nwrite(shp" + sfx + ", shs, sha)\n}\nfunc Shw2(shp string, shs string) {\nwrite(shp" + sfx + ", shs)\n}\n" +
+		"func Shr(shp string) string {\nshx := read(shp" + sfx + ")\nreturn shx\n}\nfunc She(shp string) bool {\nreturn exists(shp" + sfx + ")\n}\n"
 }
 
 func (h *c17Hist) maxContent() int {
